@@ -69,13 +69,20 @@ PARSER_OBS = ("binlogEvent_Format,binlogEvent_Rotate,binlogEvent_Query,binlogEve
               "GetStatementCategory,appendInsertEventFromRows,appendUpdateEventFromRows,appendDeleteEventFromRows,newError,Error_msgf,"
               "Streamer_binlogPosition,StatementType_String,NewMysqlTableName")
 runs['parser'] = {'pkg': '.', 'func': 'Streamer.parseEvents', 'observer': PARSER_OBS,
-                  'ifacetag': 'replication.BinlogEvent=replication.mysql56BinlogEvent', 'min_obligations': 1500, 'wall': 900}
+                  'ifacetag': 'replication.BinlogEvent=replication.mysql56BinlogEvent', 'min_obligations': 1000, 'wall': 900}
 for n, f in [('conn-read', 'slaveConnection.readBinlogEvent'), ('conn-reader', 'slaveConnection.startDumpFromBinlogPosition$1'),
              ('conn-new', 'newSlaveConnection'), ('conn-dump', 'slaveConnection.startDumpFromBinlogPosition'),
              ('stream', 'Streamer.Stream'), ('stream-error', 'Streamer.Error')]:
     runs[n] = {'pkg': '.', 'func': f}
 # Stream assigns its own receiver's fields (ctx, sendTransaction, errChan): by design, not a frame violation
 runs['stream']['exclude'] = ['frame:store-field']
+for n, f in [('row-values', 'getValuesFromRow'), ('row-identifies', 'getIdentifiesFromRow')]:
+    runs[n] = {'pkg': '.', 'func': f, 'opaque': 'specCellLen,specCellText,specCellOK', 'min_obligations': 80}
+ROW_ASSUME = [
+    "the table mapper's MysqlTable / MysqlColumn methods are pure observers (uninterpreted functions of the receiver); its column list has no nil entries",
+    "CellBytes is used through its contract (verified per type in its own units); in the row units the cell specification functions are opaque (equal arguments give equal texts)",
+    "columns appended to a row are separate objects that later iterations never write (each iteration writes only the object it has just allocated): 'every column was right when appended' (ghost accumulation, checked at every iteration) is therefore 'every column is right at the end'",
+]
 CONN_ASSUME = [
     "dependency contract (github.com/Breeze0806/mysql DumpConn, outside /repo): ReadPacket returns an error or a packet of at least one byte and may reuse its buffer; Exec / NoticeDump encode their arguments per the MySQL protocol; Close unblocks ReadPacket; HandleErrorPacket carries the master's code and message",
     "trusted contracts (assumed, bodies not verified): (*Error).msgf returns its receiver and changes only the message; SetBinlogPosition / binlogPosition store and load the position through atomic.Value (Load returns the last Store), mirrored by a ghost variable",
@@ -110,7 +117,8 @@ props['C10'] = {
     'note': "Trusted: govc's SSA→SMT translation, the solvers, strconv.Append{Int,Uint,Float} library contracts (digit generation is strconv's job); the signedness flag's provenance from the mapper column is proved in getValuesFromRow (C01/C15 units), not here. Termination not proved.",
     'technique': GEN,
     'trusted': ["strconv.AppendInt/AppendUint/AppendFloat produce the decimal text of their argument (library contract)"],
-    'runs': cell(NUMERIC, exclude=['ensures:owner', 'ensures:len']),
+    'runs': cell(NUMERIC, exclude=['ensures:owner', 'ensures:len']) + [{'use': 'row-values', 'include': ['ensures:columns', 'inv-.*']}, {'use': 'row-identifies', 'include': ['ensures:columns', 'inv-.*']}],
+    'assumptions': ROW_ASSUME,
 }
 props['C12'] = {
     'level': 'proof',
@@ -134,7 +142,8 @@ props['C13'] = {
     'claim': "For VARCHAR/VAR_STRING/STRING(CHAR,BINARY)/BLOB family/GEOMETRY and every declared length (prefix width 1..4 decided by metadata) and actual length incl. zero, the value is byte-for-byte data[pos+w : pos+w+l] and is non-nil (empty is not NULL); NULL/absent marking of columns is proved on getValuesFromRow/getIdentifiesFromRow.",
     'note': "Trusted: govc, solvers. The NULL/absent flags are obligations of the row-conversion units (root package).",
     'technique': GEN,
-    'runs': cell(STRINGS, exclude=['ensures:len']),
+    'runs': cell(STRINGS, exclude=['ensures:len']) + [{'use': 'row-values', 'include': ['ensures:columns', 'ensures:shape', 'inv-.*']}, {'use': 'row-identifies', 'include': ['ensures:columns', 'ensures:shape', 'inv-.*']}],
+    'assumptions': ROW_ASSUME,
 }
 props['C09'] = {
     'level': 'proof',
@@ -142,7 +151,10 @@ props['C09'] = {
     'note': "Trusted: govc, solvers. The row loop of Rows() and the column loops are separate units.",
     'technique': GEN,
     'runs': [{'use': 'len-' + n} for n in TYPES] + cell([n for n in TYPES if n not in ('json', 'newdecimal')], include=['ensures:len'] + SAFE)
-            + ['rbr-readLenEncInt', 'rbr-newBitmap', 'rbr-Bitmap.Count', 'rbr-Bitmap.Bit', 'rbr-Bitmap.BitCount'],
+            + ['rbr-readLenEncInt', 'rbr-newBitmap', 'rbr-Bitmap.Count', 'rbr-Bitmap.Bit', 'rbr-Bitmap.BitCount',
+               {'use': 'row-values', 'include': ['ensures:consumed', 'inv-.*', 'call-pre:.*', 'safe:.*']},
+               {'use': 'row-identifies', 'include': ['ensures:consumed', 'inv-.*', 'call-pre:.*', 'safe:.*']}],
+    'assumptions': ROW_ASSUME,
 }
 props['C08'] = {
     'level': 'proof',
@@ -151,6 +163,14 @@ props['C08'] = {
     'technique': GEN,
     'runs': cell([n for n in TYPES if n not in ('json', 'newdecimal')], include=['ensures:owner', 'frame:.*']) + [{'use': 'parser', 'include': ['inv-.*', 'frame:.*']}, {'use': 'conn-read', 'include': ['ensures:copy', 'frame:.*', 'safe:.*']}],
     'assumptions': PARSER_ASSUME[:3],
+}
+props['C01'] = {
+    'level': 'proof',
+    'claim': "Glue obligations of end-to-end fidelity, each over the real code: the event handed to the parser is a byte-exact private copy of the packet payload (readBinlogEvent); the parser delivers exactly the buffered changes at commit points with the right labels and timestamp (parser unit, C02-C04); each row image is converted column by column — name and signedness from the mapper column of the same ordinal, type from the table map, absent / NULL / value (= the decoded cell text at the offset the length rule gives) — and consumed exactly (getValuesFromRow / getIdentifiesFromRow). The premises about cell texts, row splitting, table maps, headers and checksums are C08-C17 (own checks). 'Premises imply the end-to-end statement' is a structural induction over the event sequence written in DESIGN.md, not machine-checked.",
+    'note': "Trusted: govc, solvers; the composition lemma is on paper; channel FIFO; the master emits the documented grammar. Configurations (checksum on/off, v1/v2 rows, 4/6-byte ids, partial images, GTID on/off) are symbolic parameters of the premises, not an enumeration.",
+    'technique': GEN + "; glue obligations + premises proved by the other checks",
+    'assumptions': PARSER_ASSUME + ROW_ASSUME,
+    'runs': ['conn-read', 'parser', 'row-values', 'row-identifies'],
 }
 props['C02'] = {
     'level': 'proof',
@@ -208,6 +228,17 @@ props['C17'] = {
     'technique': GEN,
     'runs': [{'use': 'ev-' + m} for m in EV[:19]] + ['ev56-IsGTID', 'evmaria-IsGTID', 'parser'],
     'assumptions': PARSER_ASSUME[:3],
+}
+props['C15'] = {
+    'level': 'proof',
+    'claim': "Building blocks of table-map decoding and attribution, each proved for all inputs: length-encoded integers (1/3/4/9-byte forms, so counts >= 251), per-type metadata width and byte order (big-endian for NEWDECIMAL/ENUM/SET/STRING, little-endian for VARCHAR/BIT/VAR_STRING, one byte for the blob / fractional / float / JSON / geometry types), bitmap views, 4- and 6-byte table ids; rows are converted with the mapper column of the same ordinal (name, signedness) and the table map's type of the same ordinal; a mapper column-count mismatch is an error (row conversion and parser). The table-map body parser as a whole (binlogEvent.TableMap: names, types window, metadata loop, nullability bitmap) is NOT yet discharged: its contract exists but its obligations do not close in time (see DESIGN.md), so it is not part of this check.",
+    'note': "Not covered: binlogEvent.TableMap as a whole (contract written, obligations not discharged), the parser's table cache keyed by table id (latest table map per id).",
+    'technique': GEN,
+    'assumptions': ROW_ASSUME + PARSER_ASSUME[:3],
+    'runs': ['rbr-readLenEncInt', 'rbr-metadataRead', 'rbr-newBitmap', 'ev-TableID',
+             {'use': 'row-values', 'include': ['ensures:shape', 'ensures:columns', 'inv-.*']},
+             {'use': 'row-identifies', 'include': ['ensures:shape', 'ensures:columns', 'inv-.*']},
+             {'use': 'parser', 'include': ['ensures:.*', 'inv-.*', 'safe:.*']}],
 }
 props['C16'] = {
     'level': 'proof',
